@@ -8,7 +8,7 @@
 (*                                                                                      *)
 (* State:  obj  = [fmt |-> "sm" | "ssc", items, charts]  (Codec's representation)        *)
 (*         disk = the last text written (<<>> before the first save)                      *)
-EXTENDS Codec
+EXTENDS Codec, NoteData, Beat
 
 VARIABLES obj, disk
 svars == <<obj, disk>>
@@ -108,6 +108,26 @@ ToSSC(tmpl, ctmpl, res) ==
      IN obj' = [fmt |-> "ssc", items |-> copyAll(tmpl, obj.items),
                 charts |-> [j \in DOMAIN obj.charts |-> copyAll(ctmpl, fieldsAsItems(obj.charts[j]))]]
   /\ UNCHANGED disk
+
+(* reading a chart's notes / the simfile's timing strings through the library's readers (NoteData.tla, Beat.tla) *)
+ChartNotesText(o, j) == IF o.fmt = "sm" THEN o.charts[j].fields[6]
+                        ELSE LET c == o.charts[j] IN MGet(c, ChartSel(c, K_NOTES))
+ReadNotes(j, res) ==        \* res: the notes the library yielded, [p, n, d, c, t, k]
+  /\ j \in DOMAIN obj.charts
+  /\ (obj.fmt = "ssc" => ChartHasNotes(obj.charts[j]))
+  /\ res = Decode(ChartNotesText(obj, j))
+  /\ UNCHANGED svars
+K_BPMS == <<66, 80, 77, 83>>
+K_DELAYS == <<68, 69, 76, 65, 89, 83>>
+K_WARPS == <<87, 65, 82, 80, 83>>
+TimingText(o, name) == LET k == Sel(o.fmt, o.items, name) IN IF MHas(o.items, k) THEN MGet(o.items, k) ELSE None
+ReadTiming(name, res) ==    \* res: [st, evs <<[n, d, m, e]>>] as TimingData(simfile) exposes the list `name`
+  /\ LET p == ParseEvents(TimingText(obj, name)) IN
+     IF ~p.ok THEN res.st # "ok"
+     ELSE /\ res.st = "ok" /\ Len(res.evs) = Len(p.evs)
+          /\ \A i \in DOMAIN p.evs : /\ Norm(<<p.evs[i].k, SUB>>) = <<res.evs[i].n, res.evs[i].d>>
+                                       /\ SameDecimal(p.evs[i].v, [m |-> res.evs[i].m, e |-> res.evs[i].e])
+  /\ UNCHANGED svars
 
 (* invariant of every session: what is on disk re-opens as something the object was at the time of saving; checked by Reopen *)
 TypeOK == obj.fmt \in {"sm", "ssc"} /\ MUnique(obj.items)
